@@ -1,7 +1,8 @@
 """Python stage of C09: an independent hex-dump decoder.
 
 harness/C09.cc (section `dump`) writes every 211th case of the size x start-address x flag matrix to
-<outdir>/dump.<shard>.dat, one record per line:
+<outdir>/dump.<shard>.dat, harness/C09_r2.cc (section `dump_edges`) every 97th case of the 2^k address grid to
+<outdir>/edges.<shard>.dat, one record per line:
 
     <start hex> <size> <flags hex> <data hex or -> - <output hex or ->
 
@@ -101,9 +102,10 @@ def decode(start, size, flags, data, out):
 
 def run(outdir, tier, repo):
     validated, violations, seen_keys = 0, [], set()
-    files = sorted(glob.glob(os.path.join(outdir, "dump.*.dat")))
+    files = sorted(glob.glob(os.path.join(outdir, "dump.*.dat"))) + sorted(glob.glob(os.path.join(outdir, "edges.*.dat")))
     records = 0
     for path in files:
+        section = "dump_edges" if os.path.basename(path).startswith("edges.") else "dump"
         with open(path) as f:
             for rec in f:
                 parts = rec.split()
@@ -116,13 +118,13 @@ def run(outdir, tier, repo):
                 res = decode(start, size, flags, data, out)
                 if res is None:
                     validated += 1
-                elif res[0] not in seen_keys:
-                    seen_keys.add(res[0])
-                    violations.append({"key": res[0], "section": "dump", "count": 1,
+                elif (section, res[0]) not in seen_keys:
+                    seen_keys.add((section, res[0]))
+                    violations.append({"key": res[0], "section": section, "count": 1,
                                        "desc": "format_data(%d bytes %s, start_address=0x%X, flags=0x%04X): %s [Python dump decoder]" % (size, data[:32].hex(), start, flags, res[1])})
                 else:
                     for v in violations:
-                        if v["key"] == res[0]:
+                        if v["key"] == res[0] and v["section"] == section:
                             v["count"] += 1
     notes = ["python dump decoder: %d records from %d shard files, %d decoded back to the dumped bytes" % (records, len(files), validated)]
     return {"validated": validated, "violations": violations, "notes": notes}
